@@ -19,7 +19,9 @@ LEVEL_NOTE = ("Trusted: seam completeness for the dynamically linked binary; the
 RULE = ("case = one generated project; twin run records operations; plans = fail/torn on each scratch OPEN_W / WRITE / RENAME "
         "(single), pairs of them, and persistent class faults (every rename out of TMPDIR fails EXDEV; every create in TMPDIR "
         "fails; disk full from operation k). Non-trivial = the planned fault fired; distinct = (world, plan).")
-PROBES = ["non_utf8_tmpdir", "real_missing_tmpdir", "exdev_rename", "no_scratch", "multi_fault", "disk_full_from", "error_surfaced_before_rename", "post_rename_write_failed"]
+PROBES = ["tmpdir_other_fs", "non_utf8_tmpdir", "real_missing_tmpdir", "exdev_rename", "no_scratch", "multi_fault", "disk_full_from", "error_surfaced_before_rename", "post_rename_write_failed"]
+PROBES_ZERO_EXPECTED = {"post_rename_write_failed": "since fix 1d3b04e (flush before the rename) the repaired tree issues no write after a "
+                        "rename; the probe counts again as soon as a change reintroduces one"}
 ASSUMPTIONS = ["an injected failure is final for that call (no hidden retry by the seam)",
                "the follow-up --check runs fault-free on the tree the faulted run left"]
 DEADLINE = {"quick": 200, "thorough": 3000}
@@ -95,9 +97,17 @@ def plans_for(rng, ops, phm, tier, base):
         nren = sum(1 for o in ops if o.kind == "RENAME")
         plans.append(("nth_rename", [{"from": 1, "kinds": ["RENAME"], "pre": "tmp/", "nth": rng.randrange(1, nren + 1),
                                       "act": "fail", "errno": rng.choice(["EXDEV", "EACCES", "EIO"])}]))
+    # TMPDIR on another file system and, on top of that, the source files themselves cannot be written: whatever an
+    # implementation falls back to when the rename is refused, its failure has to surface too
+    srcw = {"from": 1, "kinds": rng.choice([["WRITE"], ["WRITE"], ["WRITE", "OPEN_W"]]), "pre": "proj/src", "act": "fail",
+            "errno": rng.choice(["ENOSPC", "EIO", "EDQUOT"])}
+    plans.append(("exdev_srcwrite", [{"from": 1, "kinds": ["RENAME"], "pre": "tmp/", "act": "fail", "errno": "EXDEV"}, srcw]))
     out = []
     for name, fs in plans:
         out.append((name, {"seed": base["seed"], "perm": base["perm"], "faults": fs}))
+    # the same through the simulated mount point (st_dev differs as well)
+    out.append(("other_fs", {"seed": base["seed"], "perm": base["perm"], "faults": [dict(srcw)] if rng.random() < 0.5 else [],
+                             "mount": "@TMPDIR@"}))
     return out
 
 
@@ -119,7 +129,9 @@ def evaluate(wm, knobs, plan, ctx, twin=None, label=None):
             phase = scen.phase_of(phm, f0["k"], K)
         else:
             phase = "class:%s" % "+".join(f0.get("kinds", []))
-        if len(plan["faults"]) > 1:
+        if plan.get("mount"):
+            phase = "other-fs" + ("+srcwrite" if plan["faults"] else "")
+        elif len(plan["faults"]) > 1:
             phase = "multi:" + "+".join(sorted({k for f in plan["faults"] for k in f.get("kinds", ["k"])}))
         fired = res.fired_counts()
         states = scen.classify_files(wm, run["before"], run["after"], twin["after"])
@@ -203,10 +215,17 @@ def run_case(rng, idx, tier, ctx):
         ctx.nontrivial.add("%d.realtmp" % idx)
         viols += vs
     for n, (name, plan) in enumerate(plans):
+        if plan.get("mount") == "@TMPDIR@":
+            td = knobs.get("tmpdir", "tmp").rstrip("/")
+            if "\udcff" in td or knobs.get("tmpdir_rel"):
+                continue
+            plan["mount"] = td
         vs, fired = evaluate(wm, knobs, plan, ctx, twin)
         if fired:
             ctx.nontrivial.add("%d.%d" % (idx, n))
-        f0 = plan["faults"][0]
+        f0 = plan["faults"][0] if plan["faults"] else {"act": "none"}
+        if name == "other_fs":
+            ctx.probes["tmpdir_other_fs"] += 1
         if name == "exdev" or f0.get("errno") == "EXDEV":
             ctx.probes["exdev_rename"] += bool(fired)
         if name == "no_scratch":
